@@ -332,6 +332,47 @@ def rerun(ctx, tool, cases, name="rerun"):
     return usable(vlib.read_jsonl(p)) if rc == 0 else []
 
 
+def confirm_hung(ctx, tool, cases, rerun_fn):
+    """A run that did not return within the driver's watchdog is run again, alone (a driver process of its own, nothing
+    else running in it), twice.  It stays a failing input if a re-run hangs as well; if every re-run terminates the
+    observation was not reproduced (machine load / a stalled process): the original run - whose trace was cut by the
+    watchdog's stop request - is not judged, and is reported in the evidence."""
+    hung = [c for c in cases if c.get("hung")]
+    if not hung:
+        return cases
+    dropped, confirmed = [], 0
+    for n, c in enumerate(hung):
+        if n >= 12 and confirmed:
+            break               # a real hang has been confirmed: the others stay as they are
+        again = []
+        for r in range(2):
+            res = rerun_fn(ctx, tool, [c], "hungcheck%d_%d" % (n, r))
+            again += res
+            if not res or any(x.get("hung") for x in res):
+                break
+        c["hung_reruns"] = ["hung" if x.get("hung") else "ended" for x in again] or ["no result"]
+        if len(again) == 2 and not any(x.get("hung") for x in again):
+            dropped.append(c)
+        else:
+            confirmed += 1
+    if dropped:
+        ctx.notes.append("%d run(s) had not returned when the driver's watchdog expired but terminated in both of two re-runs alone: "
+                         "not reproduced, not judged (first: stream %s k=%s, wall %s us)"
+                         % (len(dropped), dropped[0].get("stream"), dropped[0].get("k"), dropped[0].get("wall")))
+        ctx.cov["hung_not_reproduced"] = [inputs_of(c) for c in dropped[:3]]
+    return [c for c in cases if not any(c is d for d in dropped)]
+
+
+def skipped_note(ctx, skipped, total):
+    by = {}
+    for c in skipped:
+        key = (c.get("note") or "")[:110]
+        by[key] = by.get(key, 0) + 1
+    ctx.notes.append("%d of %d generated case(s) were not run / not judged: %s"
+                     % (len(skipped), total, "; ".join("%d x %s" % (n, k) for k, n in sorted(by.items(), key=lambda t: -t[1]))))
+    ctx.cov["skipped_runs"] = len(skipped)
+
+
 def drop_step(c, i):
     """the case without step i (dependencies on it removed, indices shifted)"""
     d = json.loads(json.dumps(inputs_of(c)))
@@ -578,6 +619,10 @@ def agent_real_monitor(c, pid):
     count L, the dependent is canceled and does not run."""
     if c.get("infra"):
         return None
+    if c.get("kind") == "yamlpre":
+        return yaml_pre_monitor(c)
+    if c.get("kind") == "retryrun":
+        return retry_run_monitor(c, pid)
     what = "%s step (fails its first %s run(s), retry limit %d)" % (
         "`script:`" if c["script"] else "command", "all" if c["fails"] < 0 else c["fails"], c["rlimit"])
     if c.get("hung"):
@@ -595,6 +640,51 @@ def agent_real_monitor(c, pid):
     if c["attempts"] != runs or c["s1_retry"] != runs - 1:
         return ("%s: the script ran %d time(s), retry count %d; its outcome script and limit call for %d run(s), retry count %d "
                 "(step ended '%s')" % (what, c["attempts"], c["s1_retry"], runs, runs - 1, c["s1"]))
+    return None
+
+
+def yaml_pre_monitor(c):
+    """C02 on a DAG loaded from YAML (dag.Load, the real start path) whose preconditions refer to the output variable of an
+    upstream step - a value that exists only at run time: `met` ($VAR == go, VAR printed by `produce`) is executed and so is
+    its child; `unmet` (${VAR} == "", unmet because VAR = go) is skipped without running, and so is its child."""
+    if c.get("hung"):
+        return "agent run of the YAML DAG with preconditions on an output variable did not end"
+    nd, ran = c.get("nodes") or {}, c.get("ran") or {}
+    st = lambda n: (nd.get(n) or {}).get("st", "?")
+    if st("produce") != "finished":
+        return "YAML DAG: step `produce` (echo go, output: VAR) ended '%s'" % st("produce")
+    for n in ("met", "met-child"):
+        if st(n) != "finished" or not ran.get(n):
+            return ("YAML DAG: the precondition of step `met` (\"$VAR\" expected \"go\"; VAR is the output variable of its dependency, "
+                    "which printed go) is met, but step `%s` ended '%s' and its command %s (run reported '%s'): the condition was "
+                    "not evaluated with the run-time value" % (n, st(n), "ran" if ran.get(n) else "did not run", c.get("status")))
+    for n in ("unmet", "unmet-child"):
+        if st(n) != "skipped" or ran.get(n):
+            return ("YAML DAG: the precondition of step `unmet` (\"${VAR}\" expected \"\"; VAR = go at run time) is unmet, but step "
+                    "`%s` ended '%s' and its command %s: unmet => skipped and not executed, descendants skipped"
+                    % (n, st(n), "ran" if ran.get(n) else "did not run"))
+    return None
+
+
+def retry_run_monitor(c, pid):
+    """C02 / C03 on a recorded run plus its retry run (agent with RetryTarget): s1 used up its retries in the recorded run; in
+    the retry run it fails `more` <= limit more times and then succeeds: the retry budget is per run - s1 ends finished
+    after more+1 executions with retry count `more`, its dependent s2 executes, the run is finished."""
+    what = ("retry run of a recorded run in which step s1 (retry limit %d) failed all %d attempts; in the retry run its script fails "
+            "%d more time(s) and then succeeds" % (c["rlimit"], c.get("runs1", 0), c.get("more", 0)))
+    if c.get("hung"):
+        return what + ": the run did not end"
+    nd, ran = c.get("nodes") or {}, c.get("ran") or {}
+    s1, s2 = nd.get("s1") or {}, nd.get("s2") or {}
+    more = c.get("more", 0)
+    if pid == "C02" and (s1.get("st") != "finished" or s2.get("st") != "finished" or not ran.get("s2") or c.get("status") != "finished"):
+        return ("%s: s1 ended '%s' after %d execution(s) in this run (retry count %s), its dependent s2 '%s' (%s), the run '%s'"
+                % (what, s1.get("st"), c.get("attempts", 0), s1.get("rc"), s2.get("st"), "ran" if ran.get("s2") else "did not run",
+                   c.get("status")))
+    if c.get("attempts") != more + 1 or s1.get("rc") != more:
+        return ("%s: s1 was executed %d time(s) in the retry run and ends with retry count %s; the limit applies per run and calls "
+                "for %d execution(s), retry count %d (s1 ended '%s')"
+                % (what, c.get("attempts", 0), s1.get("rc"), more + 1, more, s1.get("st")))
     return None
 
 
@@ -616,9 +706,12 @@ def agent_real_part(ctx, tool, pid):
             ctx.notes.append("agentreal case %s not observed: %s" % (c["sub"], c["infra"]))
         why = agent_real_monitor(c, pid)
         if why is not None:
-            ctx.fail("monitor", "%s: %s" % (pid, why), c, cls={"kind": "agent-real", "sub": c["sub"], "script": c["script"]})
+            ctx.fail("monitor", "%s: %s" % (pid, why), c, cls={"kind": "agent-real", "sub": c["sub"], "script": c.get("script")})
     ctx.cov["agent_real_script_runs"] = [{k: c[k] for k in ("script", "fails", "rlimit", "attempts", "s1", "s1_retry", "s2", "dep_ran", "status")}
-                                         for c in cases]
+                                         for c in cases if not c.get("kind")]
+    ctx.cov["agent_real_yaml_precondition_runs"] = [{k: c.get(k) for k in ("nodes", "ran", "status")} for c in cases if c.get("kind") == "yamlpre"]
+    ctx.cov["agent_real_retry_runs"] = [{k: c.get(k) for k in ("rlimit", "more", "runs1", "run1", "attempts", "nodes", "ran", "status")}
+                                        for c in cases if c.get("kind") == "retryrun"]
     ctx.cov["agent_real_script_s"] = round(dt, 1)
 
 
@@ -650,11 +743,11 @@ def run_family(ctx, pid, replay_cases=None, agent_again=False):
     skipped = [c for c in lost if (c.get("note") or "").startswith("skipped:")]
     lost = [c for c in lost if c not in skipped]
     if skipped:
-        ctx.notes.append("%d generated case(s) were not run: %s" % (len(skipped), skipped[0]["note"]))
+        skipped_note(ctx, skipped, len(cases))
     if lost:
         ctx.fail("correspondence", "the driver could not run %d generated case(s): %s" % (len(lost), (lost[0].get("note") or "")[:200]),
                  inputs_of(lost[0]))
-    cases = usable(cases)
+    cases = confirm_hung(ctx, tool, usable(cases), rerun)
     accepted = evaluate(ctx, pid, tool, cases, "cases")
     nontrivial = set()
     for c in cases:
